@@ -193,3 +193,48 @@ Proof. repeat split. Qed.
 (* custom: column 0 is U, column 1 is V *)
 Lemma custom_columns : custom_U_col = 0%Z /\ custom_V_col = 1%Z.
 Proof. split; reflexivity. Qed.
+
+(* ------------------------------------------------------------------ the square target is convex, not strictly:
+   three points of the perimeter curve with increasing parameters never turn clockwise, and they are collinear only
+   when all three lie on one side of the square (the documented flat-triangle caveat) *)
+Definition same_side (p q r : Q * Q) : Prop :=
+  (snd p == 0 /\ snd q == 0 /\ snd r == 0) \/ (fst p == 1 /\ fst q == 1 /\ fst r == 1) \/
+  (snd p == 1 /\ snd q == 1 /\ snd r == 1) \/ (fst p == 0 /\ fst q == 0 /\ fst r == 0).
+
+Lemma sq_curve_convex s t u : 0 <= s -> s < t -> t < u -> u < 4 ->
+  0 <= orient_det (sq_curve s) (sq_curve t) (sq_curve u) /\
+  (orient_det (sq_curve s) (sq_curve t) (sq_curve u) == 0 -> same_side (sq_curve s) (sq_curve t) (sq_curve u)).
+Proof.
+  intros Hs Hst Htu Hu. unfold sq_curve, orient_det, same_side.
+  destruct (Qlt_le_dec s 1); [|destruct (Qlt_le_dec s 2); [|destruct (Qlt_le_dec s 3)]];
+  (destruct (Qlt_le_dec t 1); [|destruct (Qlt_le_dec t 2); [|destruct (Qlt_le_dec t 3)]]);
+  (destruct (Qlt_le_dec u 1); [|destruct (Qlt_le_dec u 2); [|destruct (Qlt_le_dec u 3)]]);
+  cbn [fst snd]; try (exfalso; lra); (split; [nra|]); intros E;
+  first [ left; repeat split; lra | right; left; repeat split; lra | right; right; left; repeat split; lra
+        | right; right; right; repeat split; lra | exfalso; nra
+        | left; repeat split; nra | right; left; repeat split; nra | right; right; left; repeat split; nra
+        | right; right; right; repeat split; nra ].
+Qed.
+
+Lemma orient_det_compat (p q r p' q' r' : Q * Q) :
+  fst p == fst p' -> snd p == snd p' -> fst q == fst q' -> snd q == snd q' -> fst r == fst r' -> snd r == snd r' ->
+  orient_det p q r == orient_det p' q' r'.
+Proof. intros A1 A2 B1 B2 C1 C2. unfold orient_det. rewrite A1, A2, B1, B2, C1, C2. reflexivity. Qed.
+
+(* the square border polygon, every border length: weakly convex, flat only along one side *)
+Lemma sq_border_convex n v w x : (3 <= n)%Z -> (0 <= v)%Z -> (v < w)%Z -> (w < x)%Z -> (x < n)%Z ->
+  let P := fun k => (sq_U n k, sq_V n k) in
+  0 <= orient_det (P v) (P w) (P x) /\ (orient_det (P v) (P w) (P x) == 0 -> same_side (P v) (P w) (P x)).
+Proof.
+  intros Hn Hv Hvw Hwx Hx P.
+  destruct (sq_placement n v Hn ltac:(lia)) as (U1 & V1 & A1 & B1).
+  destruct (sq_placement n w Hn ltac:(lia)) as (U2 & V2 & A2 & B2).
+  destruct (sq_placement n x Hn ltac:(lia)) as (U3 & V3 & A3 & B3).
+  pose proof (sq_param_mono n v w Hn Hv Hvw ltac:(lia)) as M1.
+  pose proof (sq_param_mono n w x Hn ltac:(lia) Hwx Hx) as M2.
+  destruct (sq_curve_convex _ _ _ A1 M1 M2 B3) as [C0 CF].
+  assert (E : orient_det (P v) (P w) (P x) == orient_det (sq_curve (sq_param n v)) (sq_curve (sq_param n w)) (sq_curve (sq_param n x))).
+  { apply orient_det_compat; unfold P; cbn [fst snd]; assumption. }
+  split; [rewrite E; exact C0|]. intros Z0. rewrite E in Z0. specialize (CF Z0).
+  unfold same_side in *. unfold P. cbn [fst snd]. rewrite U1, U2, U3, V1, V2, V3. exact CF.
+Qed.
